@@ -522,6 +522,7 @@ class Interp:
                 return lib.CONSTS[full]
             return ModuleV(full)
         if isinstance(base, Obj):
+            raw_attr = attr
             attr = self.mangle(attr, fr.cls if fr else None)
             cls = base.cls
             if cls in self.repo.classes:
@@ -530,6 +531,8 @@ class Interp:
                     return self.inline_property(base, pr, st)
                 if self.repo.find_method(cls, attr) is not None:
                     return BoundMethod(base, attr)
+                if self.repo.find_method(cls, raw_attr) is not None:   # private (name-mangled) method
+                    return BoundMethod(base, raw_attr)
             if cls in lib.OBJ_METHODS and attr in lib.OBJ_METHODS[cls]:
                 return BoundMethod(base, attr)
             fields = st.heap[base.oid]
@@ -591,6 +594,23 @@ class Interp:
         raise Unsupported(f"field {obj.cls}.{attr} has no declared type in the sidecar class spec")
 
     def opaque_attr(self, base: Opaque, attr, st):
+        ov = st.heap.get("$opq", {}).get(attr)
+        if ov:
+            for term, val in reversed(ov):
+                if term.eq(base.term):
+                    return val
+            # a store to the same field of a possibly different object: scalars become a conditional, others undecided
+            basev = self._opaque_attr_base(base, attr, st)
+            out = basev
+            for term, val in ov:
+                if (is_num(val) or is_boolish(val)) and (is_num(out) or is_boolish(out)):
+                    out = zite(term == base.term, val, out)
+                else:
+                    raise Unsupported(f"field {attr} was stored on another object that may alias this one")
+            return out
+        return self._opaque_attr_base(base, attr, st)
+
+    def _opaque_attr_base(self, base: Opaque, attr, st):
         cls = base.cls
         if cls is not None:
             for c in (self.repo.mro(cls) or [cls]):
